@@ -860,6 +860,7 @@ def combo_order_cases(draw, tier):
                        "items": [{"kind": k, "as": "name", "prefix": ""} for k in bk]},
     }
     x = grid_x(case["grid"])
+    case["estimates"] = case["estimates"][:1]      # one peak per case: each costs seven fits
     ranges = []
     for e in case["estimates"]:
         k = draw(st.sampled_from([5, 6, 6, 6, 6, 7, 8]))
@@ -1479,7 +1480,7 @@ FACETS = [
           quick=(4, 12), thorough=(16, 60), shrink=False, min_nontrivial=0.2,
           doc="windows holding exactly as many points as the model has parameters"),
     Facet("combo_order", check_independence, strategy=lambda tier: combo_order_cases(tier),
-          quick=(4, 6), thorough=(16, 40), shrink=False, min_nontrivial=0.0,
+          quick=(8, 3), thorough=(16, 40), shrink=False, min_nontrivial=0.0,
           doc="pseudo-Voigt/Gaussian x quadratic/linear lists in either order on windows of 5..8 points: the "
               "result is that of the first combination that succeeds on its own (or of one of them if none does)"),
     Facet("guess_fraction", check_coherence, strategy=lambda tier: guess_fraction_cases(tier),
